@@ -14,6 +14,12 @@
 (*                nonce, earlier nonces, contexts absorbing record bytes)   *)
 (*                to every kind of check                                    *)
 (*                                                                         *)
+(*  Mon = "C17d"  the client side of the read exchange (PrivClient): w is the *)
+(*                session state [n, store, replies]; puts of next versions, *)
+(*                honest gets and gets answered with ANY earlier recorded    *)
+(*                reply; freshness of the nonces (C17d) and refusal of       *)
+(*                replayed replies (C17b)                                    *)
+(*                                                                         *)
 (* Framed = FALSE is the code at HEAD; a violated invariant is then a       *)
 (* HYPOTHESIS about the code which leg B must reproduce on the real crates. *)
 (* Framed = TRUE  is the proposed repair; the invariants must hold.         *)
@@ -50,11 +56,12 @@ ReqsB(st) ==
   \cup UNION { {Req(op, "lss", m.ctx, m.l, NoEdit, "core", l2, "absorb") :
                   m \in Absorbs(ExpectedCtx([op |-> op]), l2, 2, W)} : op \in Ops, l2 \in SmallLists }
 
-Init == /\ g = InitGhost
-        /\ last = [op |-> "init", ok |-> TRUE]
+Init == /\ last = [op |-> "init", ok |-> TRUE]
+        /\ g = IF Mon = "C17d" THEN InitCG ELSE InitGhost
         /\ CASE Mon = "C17c" -> s = [n |-> 1] /\ w \in Lists
              [] Mon = "C17a" -> s = [n |-> 0] /\ w \in {<<r>> : r \in Records}
              [] Mon = "C17b" -> s = InitS /\ w = <<>>
+             [] Mon = "C17d" -> s = InitS /\ w = InitC
 
 Apply(r) == LET o == Step(s, r, K) IN
             /\ Applicable(s, r)
@@ -63,7 +70,17 @@ Apply(r) == LET o == Step(s, r, K) IN
             /\ last' = [op |-> r.op, ok |-> o.resp.ok, r |-> r]
             /\ UNCHANGED w
 
-Next == CASE Mon = "C17c" ->
+\* client session: the model's get number i goes out with the fresh nonce symbol of that get
+CKeysMC == {<<107>>, <<107, 50>>}
+CPrefixes == {<<>>, <<107, 50>>}
+ApplyC(r) == LET o == CStep(w, r, K) IN
+             /\ w' = o.c
+             /\ g' = CGhost(g, r, o.resp.ok, ModelNonce(o.c.n))
+             /\ last' = [op |-> r.op, ok |-> o.resp.ok, r |-> r]
+             /\ UNCHANGED s
+
+Next == CASE Mon = "C17d" -> \E r \in CReqs(w, CKeysMC, CPrefixes, MaxN, MaxN + 1) : ApplyC(r)
+          [] Mon = "C17c" ->
                \E l2 \in Lists : Apply(Req("CheckGet", "lss", NonceCtx(0), w, NoEdit, "core", l2, "any"))
           [] Mon = "C17a" ->
                \E r2 \in Records, ed \in TagEdits \cup {[t |-> "short", n |-> 31]} :
@@ -78,6 +95,7 @@ View == <<s, w, g>>
 C17a == Inv_C17a(g)
 C17b == Inv_C17b(g)
 C17c == Inv_C17c(g)
+C17d == Inv_C17d(g)
 
 \* vacuity guards: acceptance and refusal both occur (checked as properties expected to FAIL when
 \* listed as invariants; the check lists them in a separate run)
